@@ -27,14 +27,14 @@ static long long clampi(unsigned long long v) { return v > 2000000000ull ? 20000
 struct Op {
     std::string e;
     long long k = 0, o = 0, h = 0, s = 0, v = 0, j = 0, x = 0, y = 0, keep = 0;
-    bool real = false;
+    bool real = false, th = false;
     std::string ty;
 };
 static Op parse(const json &j) {
     Op op; op.e = j.at("e").get<std::string>();
     op.k = j.value("k", 0LL); op.o = j.value("o", 0LL); op.h = j.value("h", 0LL); op.s = j.value("s", 0LL); op.v = j.value("v", 0LL);
     op.j = j.value("j", 0LL); op.x = j.value("x", 0LL); op.y = j.value("y", 0LL); op.keep = j.value("keep", 0LL);
-    op.real = j.value("real", false); op.ty = j.value("ty", std::string("big"));
+    op.real = j.value("real", false); op.th = j.value("th", false); op.ty = j.value("ty", std::string("big"));
     return op;
 }
 static void bad_script(const Op &op, const char *why) { fprintf(stderr, "script op not applicable (%s): %s\n", why, op.e.c_str()); _exit(3); }
@@ -162,18 +162,33 @@ static std::vector<Op> random_ops(vh::Rng &rng, int nops) {
 // ObjectPool
 // =====================================================================================================================
 namespace pool {
-static long long n_ctor = 0, n_dtor = 0, n_damaged = 0;    // n_damaged: destructors that found their object overwritten
+static long long n_ctor = 0, n_dtor = 0, n_damaged = 0;    // n_damaged: constructors/destructors that found their object overwritten
 static const void *last_ctor = nullptr, *last_dtor = nullptr;
+// Re-entrancy: the driver arms a hook for exactly the NEXT constructor / destructor of the element type; the hook then calls
+// alloc()/free() of the same pool from inside it (a pooled node that owns pooled children) and may make the constructor throw.
+static std::function<void(void *)> ctor_hook, dtor_hook;
+struct Boom {};
+static void fire(std::function<void(void *)> &hook, void *self) { if (hook) { auto h = std::move(hook); hook = nullptr; h(self); } }
 struct Big {
     unsigned long long magic; int v; char pad[44];
-    explicit Big(int x) : magic(0xC0FFEE0000ull + (unsigned)x), v(x) { memset(pad, x, sizeof pad); ++n_ctor; last_ctor = this; }
-    ~Big() { if (value() != v) ++n_damaged; ++n_dtor; last_dtor = this; magic = 0xDEAD; }
+    explicit Big(int x) : magic(0xC0FFEE0000ull + (unsigned)x), v(x) {
+        memset(pad, x, sizeof pad); ++n_ctor; last_ctor = this;
+        fire(ctor_hook, this);                          // may call into the pool, may throw Boom
+        if (value() != v) ++n_damaged;                  // somebody wrote into the object under construction
+    }
+    ~Big() {
+        if (value() != v) ++n_damaged;
+        ++n_dtor; last_dtor = this;
+        fire(dtor_hook, this);
+        if (value() != v) ++n_damaged;                  // somebody wrote into the object under destruction
+        magic = 0xDEAD;
+    }
     int value() const { for (char ch : pad) if (ch != (char)v) return -2; return magic == 0xC0FFEE0000ull + (unsigned)v ? v : -1; }
 };
 struct Small {      // smaller than a pointer: the pool's block must still hold its free-list link
     signed char v;
-    explicit Small(int x) : v((signed char)x) { ++n_ctor; last_ctor = this; }
-    ~Small() { ++n_dtor; last_dtor = this; }
+    explicit Small(int x) : v((signed char)x) { ++n_ctor; last_ctor = this; fire(ctor_hook, this); if (v != (signed char)x) ++n_damaged; }
+    ~Small() { signed char w = v; ++n_dtor; last_dtor = this; fire(dtor_hook, this); if (v != w) ++n_damaged; }
     int value() const { return v; }
 };
 static std::map<const void *, int> addr_ix;     // address -> dense index (same address -> same index within an execution)
@@ -181,55 +196,135 @@ static int ix(const void *p) { if (!p) return 0; auto it = addr_ix.find(p); if (
 
 struct Runner {
     virtual ~Runner() {}
-    virtual void apply(const Op &op) = 0;
+    virtual void step(const std::vector<Op> &ops, size_t &i) = 0;
     virtual void finish() = 0;
 };
 template <class P> struct R : Runner {
+    enum { DEAD = 0, LIVE = 1, CONSTRUCTING = 2, DESTRUCTING = 3 };
     std::unique_ptr<tbox::ObjectPool<P>> pl;
-    std::vector<P *> obj;           // by allocation index j (1-based); nullptr once freed
+    std::vector<P *> obj;           // by allocation index j (1-based: the j-th alloc call of the execution)
+    std::vector<char> st;
     std::string post() {
         std::string r = ",\"ctor\":" + S(n_ctor) + ",\"dtor\":" + S(n_dtor) + ",\"ca\":" + S(ix(last_ctor)) + ",\"da\":" + S(ix(last_dtor)) + ",\"bad\":" + S(n_damaged) + ",\"vals\":[";
         bool first = true;
-        for (P *p : obj) { if (!p) continue; if (!first) r += ','; first = false; r += "{\"a\":" + S(ix(p)) + ",\"v\":" + S(p->value()) + "}"; }
+        for (size_t j = 0; j < obj.size(); ++j) {       // contents of every COMPLETE object in use
+            if (st[j] != LIVE) continue;
+            if (!first) r += ','; first = false;
+            r += "{\"a\":" + S(ix(obj[j])) + ",\"v\":" + S(obj[j]->value()) + "}";
+        }
         return r + "]}";
     }
-    void apply(const Op &op) override {
+    bool live(long long j) const { return j >= 1 && j <= (long long)obj.size() && st[j - 1] == LIVE; }
+    // skip a bracket whose constructor / destructor never ran (i is just behind the opening op)
+    static void skip_to(const std::vector<Op> &ops, size_t &i, const char *close) {
+        int depth = 0;
+        for (; i < ops.size(); ++i) {
+            const std::string &e = ops[i].e;
+            if (e == "cbeg" || e == "dbeg") ++depth;
+            else if (e == "cend" || e == "dend") { if (depth == 0 && e == close) return; if (depth > 0) --depth; }
+        }
+    }
+    // executes ops[i] (for cbeg / dbeg: the whole bracket up to its cend / dend) and leaves i behind it
+    void step(const std::vector<Op> &ops, size_t &i) override {
         auto &T = vh::T();
+        const Op &op = ops[i];
         if (op.e == "pnew") {
             if (pl) bad_script(op, "pool exists");
             if (op.keep < 0) pl.reset(new tbox::ObjectPool<P>()); else pl.reset(new tbox::ObjectPool<P>((size_t)op.keep));
             T.line("{\"e\":\"pnew\",\"keep\":" + S(op.keep) + ",\"ty\":\"" + op.ty + "\"" + post());
+            ++i;
         } else if (op.e == "palloc") {
             if (!pl) bad_script(op, "no pool");
             P *p = pl->alloc((int)op.v);
-            obj.push_back(p);
+            obj.push_back(p); st.push_back(LIVE);
             T.line("{\"e\":\"palloc\",\"v\":" + S(op.v) + ",\"j\":" + S((long long)obj.size()) + ",\"a\":" + S(ix(p)) + post());
+            ++i;
         } else if (op.e == "pfree") {
-            if (!pl || op.j < 1 || op.j > (long long)obj.size() || !obj[op.j - 1]) bad_script(op, "not in use");
-            P *p = obj[op.j - 1]; obj[op.j - 1] = nullptr;
+            if (!pl || !live(op.j)) bad_script(op, "not in use");
+            P *p = obj[op.j - 1]; st[op.j - 1] = DEAD;
             pl->free(p);
             T.line("{\"e\":\"pfree\",\"j\":" + S(op.j) + ",\"a\":" + S(ix(p)) + post());
+            ++i;
+        } else if (op.e == "cbeg") {        // alloc() whose constructor calls into the pool: ops up to the matching cend run inside it
+            if (!pl) bad_script(op, "no pool");
+            const size_t j = obj.size(); const long long v = op.v;
+            obj.push_back(nullptr); st.push_back(CONSTRUCTING);
+            bool entered = false, threw = false;
+            ctor_hook = [&, j, v](void *self) {
+                entered = true; obj[j] = static_cast<P *>(self);
+                T.line("{\"e\":\"cbeg\",\"v\":" + S(v) + ",\"j\":" + S((long long)j + 1) + ",\"a\":" + S(ix(self)) + post());
+                ++i;
+                while (i < ops.size() && ops[i].e != "cend") step(ops, i);
+                if (i < ops.size() && ops[i].th) throw Boom();
+            };
+            P *r = nullptr;
+            try { r = pl->alloc((int)v); } catch (const Boom &) { threw = true; }
+            if (!entered) { ctor_hook = nullptr; ++i; skip_to(ops, i, "cend"); }     // no constructor ran: the trace shows it (cend without cbeg)
+            obj[j] = threw ? nullptr : r; st[j] = threw || !r ? DEAD : LIVE;
+            T.line("{\"e\":\"cend\",\"j\":" + S((long long)j + 1) + ",\"a\":" + S(threw ? 0 : ix(r)) + ",\"th\":" + B(threw) + post());
+            if (i < ops.size()) ++i;
+        } else if (op.e == "dbeg") {        // free() whose destructor calls into the pool
+            if (!pl || !live(op.j)) bad_script(op, "not in use");
+            const long long j = op.j;
+            P *p = obj[j - 1]; st[j - 1] = DESTRUCTING;
+            bool entered = false;
+            dtor_hook = [&, j](void *self) {
+                entered = true;
+                T.line("{\"e\":\"dbeg\",\"j\":" + S(j) + ",\"a\":" + S(ix(self)) + post());
+                ++i;
+                while (i < ops.size() && ops[i].e != "dend") step(ops, i);
+            };
+            pl->free(p);
+            if (!entered) { dtor_hook = nullptr; ++i; skip_to(ops, i, "dend"); }
+            st[j - 1] = DEAD;
+            T.line("{\"e\":\"dend\",\"j\":" + S(j) + post());
+            if (i < ops.size()) ++i;
+        } else if (op.e == "cend" || op.e == "dend") {
+            ++i;                            // unmatched closing bracket (a script cut in the middle): nothing to do
         } else if (op.e == "pdel") {
             if (!pl) bad_script(op, "no pool");
-            for (P *p : obj) if (p) bad_script(op, "objects in use");
+            for (char c : st) if (c != DEAD) bad_script(op, "objects in use");
             pl.reset();
             T.line("{\"e\":\"pdel\"" + post());
+            ++i;
         } else bad_script(op, "pool");
     }
     void finish() override {       // objects must be given back through the pool before it goes away
         if (!pl) return;
-        for (size_t j = 0; j < obj.size(); ++j) if (obj[j]) { Op f; f.e = "pfree"; f.j = (long long)j + 1; apply(f); }
-        Op d; d.e = "pdel"; apply(d);
+        std::vector<Op> tail;
+        for (size_t j = 0; j < obj.size(); ++j) if (st[j] == LIVE) { Op f; f.e = "pfree"; f.j = (long long)j + 1; tail.push_back(f); }
+        Op d; d.e = "pdel"; tail.push_back(d);
+        for (size_t i = 0; i < tail.size();) step(tail, i);
     }
 };
 static void run_script(const std::vector<Op> &ops) {
-    n_ctor = n_dtor = n_damaged = 0; last_ctor = last_dtor = nullptr; addr_ix.clear();
+    n_ctor = n_dtor = n_damaged = 0; last_ctor = last_dtor = nullptr; addr_ix.clear(); ctor_hook = nullptr; dtor_hook = nullptr;
     std::unique_ptr<Runner> r;
-    for (const Op &op : ops) {
-        if (!r) { if (op.e != "pnew") bad_script(op, "first op must be pnew"); if (op.ty == "small") r.reset(new R<Small>()); else r.reset(new R<Big>()); }
-        r->apply(op);
+    for (size_t i = 0; i < ops.size();) {
+        if (!r) { if (ops[i].e != "pnew") bad_script(ops[i], "first op must be pnew"); if (ops[i].ty == "small") r.reset(new R<Small>()); else r.reset(new R<Big>()); }
+        r->step(ops, i);
     }
     if (r) r->finish();
+}
+// n more operations at nesting level `depth`; constructors / destructors re-enter the pool up to two levels deep
+static void gen_some(vh::Rng &rng, std::vector<Op> &ops, std::vector<long long> &inuse, long long &nalloc, int depth, int n, int maxuse) {
+    for (int k = 0; k < n; ++k) {
+        int d = (int)rng.below(100); Op op;
+        if (depth < 2 && d < 12) {                                  // alloc whose constructor allocates / frees, sometimes throws
+            op.e = "cbeg"; op.v = rng.range(1, 100); long long j = ++nalloc; ops.push_back(op);
+            gen_some(rng, ops, inuse, nalloc, depth + 1, (int)rng.range(1, 3), maxuse);
+            Op e; e.e = "cend"; e.th = rng.chance(12); ops.push_back(e);
+            if (!e.th) inuse.push_back(j);
+        } else if (depth < 2 && d < 24 && !inuse.empty()) {         // free whose destructor frees / allocates
+            size_t q = rng.below(inuse.size()); op.e = "dbeg"; op.j = inuse[q]; inuse.erase(inuse.begin() + q); ops.push_back(op);
+            gen_some(rng, ops, inuse, nalloc, depth + 1, (int)rng.range(1, 3), maxuse);
+            Op e; e.e = "dend"; ops.push_back(e);
+        } else if (inuse.empty() || ((int)inuse.size() < maxuse && d < 62)) {
+            op.e = "palloc"; op.v = rng.range(1, 100); inuse.push_back(++nalloc); ops.push_back(op);
+        } else {
+            size_t q = rng.below(inuse.size()); op.e = "pfree"; op.j = inuse[q]; inuse.erase(inuse.begin() + q); ops.push_back(op);
+        }
+    }
 }
 static std::vector<Op> random_ops(vh::Rng &rng, int nops) {
     std::vector<Op> ops; Op n; n.e = "pnew"; n.ty = rng.chance(35) ? "small" : "big";
@@ -237,12 +332,7 @@ static std::vector<Op> random_ops(vh::Rng &rng, int nops) {
     n.keep = keeps[rng.below(6)]; ops.push_back(n);
     std::vector<long long> inuse; long long nalloc = 0;
     int maxuse = rng.chance(40) ? 3 : 12;
-    while ((int)ops.size() < nops) {
-        Op op;
-        if (inuse.empty() || ((int)inuse.size() < maxuse && rng.chance(52))) { op.e = "palloc"; op.v = rng.range(1, 100); inuse.push_back(++nalloc); }
-        else { size_t q = rng.below(inuse.size()); op.e = "pfree"; op.j = inuse[q]; inuse.erase(inuse.begin() + q); }
-        ops.push_back(op);
-    }
+    while ((int)ops.size() < nops) gen_some(rng, ops, inuse, nalloc, 0, 4, maxuse);
     return ops;
 }
 }  // namespace pool
